@@ -909,6 +909,8 @@ fn error_replies() -> Vec<(String, Vec<u8>)> {
 
 fn run(tier: Tier, shard: usize, nshards: usize, _seed: u64) -> Partial {
     crate::sim::install_env();
+    // every log statement of the library is evaluated and formatted (into a sink)
+    crate::eager_log::install();
     let tpls = templates();
     let mut out = Partial::default();
     // ---- E3: decoder (each shard takes a slice of the grammar, in-process threads per shard)
@@ -1008,6 +1010,8 @@ fn run(tier: Tier, shard: usize, nshards: usize, _seed: u64) -> Partial {
         let seq: Vec<u64> = (0..len).map(|i| lats[(c / 3usize.pow(i as u32)) % 3]).collect();
         live_latency_timeline(&seq, &mut out);
     }
+    out.add("log_events_evaluated", crate::eager_log::EVENTS.load(std::sync::atomic::Ordering::Relaxed));
+    out.witness("the library's log statements were evaluated", out.count("log_events_evaluated") > 0);
     out.witness("some generated datagrams decode", out.count("decoded_ok") > 0);
     out.witness("some generated datagrams are rejected", out.count("decode_errors") > 0);
     out.witness("liveness probes succeeded", out.count("probes_ok") > 0);
@@ -1018,6 +1022,7 @@ fn run(tier: Tier, shard: usize, nshards: usize, _seed: u64) -> Partial {
 }
 
 fn replay(v: &Value) -> Result<Option<Violation>, String> {
+    crate::eager_log::install();
     let mut out = Partial::default();
     let label = v.get("label").and_then(|l| l.as_str()).unwrap_or("").to_string();
     let bytes = v.get("bytes").and_then(|b| b.as_str()).and_then(unhex).unwrap_or_default();
